@@ -168,7 +168,7 @@ _add(
     "C03",
     has_suite=True,
     rule="trajectories of 40-200 steps for each of the 8 neuron classes with hyper-parameters drawn inside the documented "
-         "domains (refractory period 0, dt, 2dt, 2.5dt, 3dt, 0.3 at dt 0.1; dt in {1,0.5,0.1,1.3}), float32 and float64, "
+         "domains (refractory period 0, dt/4, 0.4dt, 0.75dt, dt, 1.5dt, 2dt, 2.5dt, 3dt, 0.3 at dt 0.1; dt in {1,0.5,0.1,1.3}), float32 and float64, "
          "batch 1-4, shapes up to 3-D, per-step drive in {random, zero, +-1e6, negative, strong, near-threshold solved "
          "from the oracle to land at theta*(1+-1e-4)}, refrac_lock on/off, adapt True/False/None x train/eval; plus "
          "exactly representable ties v == theta (and one ulp either side) for the quadratic neurons. One evaluation = "
